@@ -15,7 +15,7 @@ RULE = {
            "A case is non-trivial when the message has >=2 bytes and is not all zero; distinct = distinct message hash "
            "(+ error pattern for 'detect')."
 }
-REQUIRED = {"C20": {"pair-transition": 65536, "random-message": 500, "same-object-rechecked": 1000, "nested-call": 200,
+REQUIRED = {"C20": {"shorter-message-after-longer-one": 500, "same-memoryview-object-rechecked": 200, "pair-transition": 65536, "random-message": 500, "same-object-rechecked": 1000, "nested-call": 200,
                     "linearity-pair": 200, "single-bit": 500, "double-bit": 5000, "burst": 2000}}
 ASSUMPTIONS = {"C20": ["reference CRC is a 12-line bit-serial shift register written from the statement, "
                        "checked in setup self-test against the navX protocol example vectors"]}
@@ -64,8 +64,20 @@ def _mk(container, msg):
     return memoryview(bytes(msg))
 
 
+_PREV = []      # the two messages checksummed last by _check_value (a replay repeats them first)
+
+
 def _check_value(acc, crc7, msg, container="bytes", mode="value"):
-    got = crc7(_mk(container, msg))
+    prev = list(_PREV)
+    _PREV.append([list(msg), container])
+    del _PREV[:-2]
+    try:
+        got = crc7(_mk(container, msg))
+    except Exception as ex:  # noqa
+        acc.evaluations += 1
+        acc.violation("C20/raised", f"crc7() raised {ex!r} for a {len(msg)}-byte {container}",
+                      {"mode": "value", "msg": list(msg), "container": container, "prev": prev}, {})
+        return False
     exp = ref_crc7(msg)
     acc.evaluations += 1
     acc.checks += 1
@@ -73,9 +85,11 @@ def _check_value(acc, crc7, msg, container="bytes", mode="value"):
         acc.nontrivial.add(stable_hash([mode, list(msg[:64]), len(msg)]))
     if got != exp or not isinstance(got, int) or not 0 <= got < 128:
         acc.violation("C20/value-mismatch", "crc7() differs from the bit-serial CRC-7",
-                      {"mode": "value", "msg": list(msg), "container": container},
+                      {"mode": "value", "msg": list(msg), "container": container, "prev": prev},
                       {"got": got, "expected": exp})
         return False
+    if prev and len(prev[-1][0]) > len(msg):
+        acc.ev("shorter-message-after-longer-one")
     return True
 
 
@@ -157,6 +171,20 @@ def run_case(acc, crc7mod, case):
     crc7 = crc7mod.crc7
     mode = case["mode"]
     if mode == "value":
+        if case.get("prev"):
+            # first behind the messages that were checksummed just before it in its shard, then alone
+            del _PREV[:]
+            for pm, pc in case["prev"]:
+                try:
+                    crc7(_mk(pc, bytes(pm)))
+                except Exception:  # noqa
+                    pass
+            a2 = type(acc)()
+            if not _check_value(a2, crc7, bytes(case["msg"]), case.get("container", "bytes")):
+                acc.violations.extend(a2.violations)
+                acc.vcounts.update(a2.vcounts)
+                return
+            del _PREV[:]
         _check_value(acc, crc7, bytes(case["msg"]), case.get("container", "bytes"))
     elif mode == "linear":
         a, b = bytes(case["a"]), bytes(case["b"])
@@ -199,15 +227,27 @@ def run_inplace(acc, crc7mod, case):
     """The same bytearray / list object is checksummed, changed in place, and checksummed again (a protocol buffer
     that is re-used for every message); optionally the data iterator itself calls crc7() on another message."""
     crc7 = crc7mod.crc7
-    buf = bytearray(case["msg"]) if case["container"] == "bytearray" else list(case["msg"])
+    buf = bytearray(case["msg"]) if case["container"] != "list" else list(case["msg"])
+    arg = buf
+    if case["container"] == "memoryview":
+        arg = memoryview(buf)             # ONE view object over the receive buffer, handed to crc7() for every message
+        acc.ev("same-memoryview-object-rechecked")
+    elif case["container"] == "memoryview-slice":
+        buf = bytearray(b"\xa5\x5a\xff") + buf
+        arg = memoryview(buf)[3:]
+        acc.ev("same-memoryview-object-rechecked")
+    off = 24 if case["container"] == "memoryview-slice" else 0
     acc.evaluations += 1
     for step in case["steps"]:
         if step[0] == "flip":
-            buf[step[1] >> 3] ^= 1 << (step[1] & 7)
+            buf[(step[1] + off) >> 3] ^= 1 << (step[1] & 7)
+        cur = bytes(buf[off // 8:])
+        if step[0] == "flip":
+            pass
         elif step[0] == "nested":
             other = bytes(step[1])
 
-            def gen(b=tuple(buf), other=other):
+            def gen(b=tuple(cur), other=other):
                 for i, x in enumerate(b):
                     if i == len(b) // 2:
                         crc7(other)          # a second checksum computed while this one is in progress
@@ -215,17 +255,21 @@ def run_inplace(acc, crc7mod, case):
             got = crc7(gen())
             acc.checks += 1
             acc.ev("nested-call")
-            if got != ref_crc7(buf):
+            if got != ref_crc7(cur):
                 acc.violation("C20/reentrant", "crc7() of an iterable whose iteration computes another crc7() differs from the bit-serial CRC-7",
-                              case, {"got": got, "expected": ref_crc7(buf)})
+                              case, {"got": got, "expected": ref_crc7(cur)})
                 return
             continue
-        got = crc7(buf)
+        try:
+            got = crc7(arg)
+        except Exception as ex:  # noqa
+            acc.violation("C20/raised", f"crc7() raised {ex!r} for a {case['container']} object it had been given before", case, {})
+            return
         acc.checks += 1
         acc.ev("same-object-rechecked")
-        if got != ref_crc7(buf):
+        if got != ref_crc7(cur):
             acc.violation("C20/stale-after-in-place-change", "crc7() of a buffer object that was changed in place since its last checksum "
-                          "differs from the bit-serial CRC-7", case, {"got": got, "expected": ref_crc7(buf)})
+                          "differs from the bit-serial CRC-7", case, {"got": got, "expected": ref_crc7(cur)})
             return
     acc.nontrivial.add(stable_hash(["inplace", case["msg"], case["steps"]]))
 
@@ -295,7 +339,7 @@ def run_shard(spec):
             for _ in range(rng.choice([1, 3, 6])):
                 steps.append(rng.choice([["flip", rng.randrange(8 * n)], ["flip", rng.randrange(8 * n)], ["sum"],
                                          ["nested", list(rng.randbytes(rng.randrange(1, 9)))]]))
-            case = {"mode": "inplace", "msg": list(rng.randbytes(n)), "container": rng.choice(["bytearray", "list"]), "steps": steps}
+            case = {"mode": "inplace", "msg": list(rng.randbytes(n)), "container": rng.choice(["bytearray", "list", "memoryview", "memoryview-slice"]), "steps": steps}
             run_case(acc, crc7mod, case)
             if i == 0:
                 acc.samples.append(case)
